@@ -172,6 +172,10 @@ type c14In struct {
 type c14Block struct {
 	Nonce uint32  `json:"nonce"`
 	Txs   []c14Tx `json:"txs"`
+	// BigTxs further transactions (one input, two outputs each, derived from their number) and one more with BigOuts
+	// outputs follow: blocks as large as real ones
+	BigTxs  int `json:"big_txs,omitempty"`
+	BigOuts int `json:"big_outs,omitempty"`
 }
 
 func (b c14Block) build() *wire.MsgBlock {
@@ -184,6 +188,23 @@ func (b c14Block) build() *wire.MsgBlock {
 		}
 		for _, s := range t.Outs {
 			tx.AddTxOut(wire.NewTxOut(1, []byte(s), wire.TokenData{}))
+		}
+		blk.AddTransaction(tx)
+	}
+	for i := 0; i < b.BigTxs && i < 100000; i++ {
+		tx := wire.NewMsgTx(1)
+		h := extHash(i%7 + 1)
+		tx.AddTxIn(wire.NewTxIn(wire.NewOutPoint(&h, uint32(i)), nil))
+		tx.AddTxOut(wire.NewTxOut(1, []byte{0x51, byte(i), byte(i >> 8)}, wire.TokenData{}))
+		tx.AddTxOut(wire.NewTxOut(2, []byte{0x52, byte(i >> 3)}, wire.TokenData{}))
+		blk.AddTransaction(tx)
+	}
+	if b.BigOuts > 0 && b.BigOuts <= 200000 {
+		tx := wire.NewMsgTx(1)
+		h := extHash(3)
+		tx.AddTxIn(wire.NewTxIn(wire.NewOutPoint(&h, 77), nil))
+		for i := 0; i < b.BigOuts; i++ {
+			tx.AddTxOut(wire.NewTxOut(1, []byte{0x53, byte(i), byte(i >> 8), byte(i >> 16)}, wire.TokenData{}))
 		}
 		blk.AddTransaction(tx)
 	}
@@ -571,6 +592,11 @@ func TestC14(t *testing.T) {
 			}
 		}
 		kC14.Run(t, ev, perShard(pick(1200, 40000)))
+		// blocks of hundreds of transactions, and one whose inputs and outputs exceed 2^16 together
+		kC14Block.One(ev, c14Block{Nonce: uint32(seedEnv), Txs: []c14Tx{{Ins: []c14In{{Hash: 1}}, Outs: []HexBytes{{0x51}}}}, BigTxs: []int{255, 256, 300, 1000}[shard%4]})
+		if shard == 0 {
+			kC14Block.One(ev, c14Block{Nonce: uint32(seedEnv) + 1, Txs: []c14Tx{{Ins: []c14In{{Hash: 1}}, Outs: []HexBytes{{0x51}}}}, BigOuts: 66000})
+		}
 		kC14Block.Run(t, ev, perShard(pick(1500, 500000)))
 		kC14Chain.Run(t, ev, perShard(pick(1500, 500000)))
 		runConcurrent(kC14Block, t, ev, perShard(pick(100, 10000)), 6)
